@@ -153,7 +153,7 @@ impl Read for Srw {
                     Ok(n)
                 }
                 RAct::Eof => Ok(0),
-                RAct::Err(k) => Err(std::io::Error::new(num_kind(k), "scripted")),
+                RAct::Err(k) => Err(crate::t1::scripted_error(k)),
                 RAct::Panic => {
                     self.log.borrow_mut().push(format!("R{}:{}:err99", self.id, dest.len()));
                     panic!("scripted reader panic")
@@ -223,7 +223,7 @@ impl Write for Srw {
                 WAct::Full => Ok(buf.len()),
                 WAct::Part(k) => Ok(k.min(buf.len())),
                 WAct::Zero => Ok(0),
-                WAct::Err(k) => Err(std::io::Error::new(num_kind(k), "scripted")),
+                WAct::Err(k) => Err(crate::t1::scripted_error(k)),
             };
             self.log.borrow_mut().push(format!("W{}:{}:{}", self.id, hex(buf), res_str(&r)));
             r
@@ -235,7 +235,7 @@ impl Write for Srw {
             self.fi += 1;
             let r = match a {
                 None => Ok(()),
-                Some(k) => Err(std::io::Error::new(num_kind(k), "scripted")),
+                Some(k) => Err(crate::t1::scripted_error(k)),
             };
             self.log.borrow_mut().push(format!("F{}:{}", self.id, match &r { Ok(()) => "ok".to_string(), Err(e) => format!("err{}", kind_num(e.kind())) }));
             r
@@ -595,7 +595,7 @@ impl Write for LenRw {
             WAct::Full => Ok(buf.len()),
             WAct::Part(k) => Ok(k.min(buf.len())),
             WAct::Zero => Ok(0),
-            WAct::Err(k) => Err(std::io::Error::new(num_kind(k), "scripted")),
+            WAct::Err(k) => Err(crate::t1::scripted_error(k)),
         }
     }
     fn flush(&mut self) -> std::io::Result<()> {
@@ -630,6 +630,83 @@ pub fn big_writes(mode: &str, w: &mut impl std::io::Write) -> usize {
             };
             writeln!(w, "BW {} {} {} | {} ; {}", mode, len, astr, nums(&inner.calls), res_str(&r)).unwrap();
             n += 1;
+        }
+    }
+    n
+}
+
+
+/// `read_to_end` on chain / take, compared with std's adapters over twin readers: the bytes appended, the result, and what
+/// the reads after it return (an error in the middle must neither lose data nor un-charge the allowance).
+///   RTE <adapter> <srw1> <srw2|limit> | <impl: got ; res ; then> | <std: got ; res ; then>
+pub fn read_to_end_lines(mode: &str, w: &mut impl std::io::Write) -> usize {
+    let mut n = 0;
+    let scripts: Vec<Vec<RAct>> = vec![
+        vec![],
+        vec![RAct::Data(2, false), RAct::Err(4), RAct::Data(2, false)],
+        vec![RAct::Data(3, false), RAct::Err(3), RAct::Data(5, false)],
+        vec![RAct::Err(5)],
+        vec![RAct::Data(1, false), RAct::Eof, RAct::Data(2, false)],
+        vec![RAct::Data(2, false), RAct::Err(2), RAct::Data(9, false)],
+    ];
+    let render = |got: &[u8], r: &std::io::Result<usize>, then: &[String]| format!("{} ; {} ; {}", hex(got), res_str(r), then.join(","));
+    fn after<T: Read>(x: &mut T) -> Vec<String> {
+        let mut v = vec![];
+        for _ in 0..3 {
+            let mut d = [0x2eu8; 4];
+            let r = x.read(&mut d);
+            v.push(format!("{}:{}", res_str(&r), hex(&d)));
+        }
+        v
+    }
+    for s1 in &scripts {
+        for s2 in &scripts {
+            if mode == "chain" {
+                let (a, b) = (mk(1, b"ABCD", s1.clone()), mk(2, b"cdefgh", s2.clone()));
+                let log = Log::default();
+                let (mut ia, mut ib) = (a.twin(&log), b.twin(&log));
+                let mut got = vec![];
+                let imp = {
+                    let mut chain = ReadWriteChain::new(&mut ia, &mut ib);
+                    let r = chain.read_to_end(&mut got);
+                    let t = after(&mut chain);
+                    render(&got, &r, &t)
+                };
+                let slog = Log::default();
+                let mut got2 = vec![];
+                let stdr = {
+                    let mut chain = a.twin(&slog).chain(b.twin(&slog));
+                    let r = chain.read_to_end(&mut got2);
+                    let t = after(&mut chain);
+                    render(&got2, &r, &t)
+                };
+                writeln!(w, "RTE chain {} {} | {} | {}", a.describe(), b.describe(), imp, stdr).unwrap();
+                n += 1;
+            }
+        }
+        if mode == "take" {
+            for limit in [0u64, 1, 4, 5, 100] {
+                let a = mk(1, b"abcdefgh", s1.clone());
+                let log = Log::default();
+                let mut ia = a.twin(&log);
+                let mut got = vec![];
+                let imp = {
+                    let mut take = ReadWriteTake::new(&mut ia, limit);
+                    let r = take.read_to_end(&mut got);
+                    let t = after(&mut take);
+                    render(&got, &r, &t)
+                };
+                let slog = Log::default();
+                let mut got2 = vec![];
+                let stdr = {
+                    let mut take = a.twin(&slog).take(limit);
+                    let r = take.read_to_end(&mut got2);
+                    let t = after(&mut take);
+                    render(&got2, &r, &t)
+                };
+                writeln!(w, "RTE take {} {} | {} | {}", a.describe(), limit, imp, stdr).unwrap();
+                n += 1;
+            }
         }
     }
     n
@@ -695,6 +772,9 @@ pub fn run(mode: &str, thorough: bool, seed: u64, w: &mut impl std::io::Write) {
         eprintln!("STAT ad numeric_dictionary={} scenarios={}", nd.len(), nn);
         n += nn;
     }
+    let rte = read_to_end_lines(mode, w);
+    eprintln!("STAT ad read_to_end_scenarios={}", rte);
+    n += rte;
     let bw = big_writes(mode, w);
     eprintln!("STAT ad big_writes={} lengths=2^31-1,2^31,2^31+5,2^32+1", bw);
     n += bw;
